@@ -348,4 +348,20 @@ PROPS = {
                  "Session.Run with /verif/build/emitter as the subprocess, 16 sessions in parallel, 400 ms step timeout.  "
                  "Non-trivial: at least one JSON line."),
     },
+    "C20": {
+        "modules": ["Sheens.Props.C20"],
+        "theorems": [],
+        "facts": [],
+        "runs": {
+            "quick": [("tools", ["-n", "1500"])],
+            "thorough": [("tools", ["-n", "40000"])],
+        },
+        "analyze": analyze_generic,
+        "oracles": ["total", "analysisExact", "dotFaithful", "mermaidFaithful"],
+        "probes": [],
+        "rule": ("random compiled spec graphs (the engine generator: <=5 nodes + optional error node, native and ECMAScript actions, "
+                 "guards, missing, empty and @variable targets, nil and empty branch lists, unreachable nodes); Analyze, Dot and Mermaid "
+                 "run on the compiled spec; analysis fields compared as sets/counts, rendered node declarations and edges parsed back "
+                 "from the DOT / Mermaid text and compared with the model.  Non-trivial: more than one node."),
+    },
 }
